@@ -12,6 +12,7 @@ type Style struct {
 	PG       bool // identifiers in double quotes (PostgresEscapingDialect)
 	Brackets bool // ARRAY(..) written as [..] (IdiomaticArrays)
 	QuoteAll bool // quote every identifier, even plain ones
+	BareFrom bool // ... except the plain table names and aliases of FROM (so that the text also parses without the option)
 	Root     bool // the document is addressed under `root` (Wrapped): FROM paths get the prefix
 	ctes     map[string]bool
 	inSub    bool // rendering a row-scoped subquery: paths without <- are relative to the row
@@ -274,6 +275,16 @@ var joinSQL = map[string]string{"inner": "JOIN", "left": "LEFT JOIN", "right": "
 
 // From renders a FROM source.
 func (st Style) From(f Node) string {
+	if st.BareFrom && st.QuoteAll {
+		inner := st
+		inner.QuoteAll = false
+		return inner.fromText(f, st)
+	}
+	return st.fromText(f, st)
+}
+
+// fromText renders a FROM source with the receiver's quoting; nested queries and ON conditions use `full`
+func (st Style) fromText(f Node, full Style) string {
 	as := ""
 	if a, _ := f["as"].(string); a != "" {
 		as = " " + st.ident(a)
@@ -294,13 +305,13 @@ func (st Style) From(f Node) string {
 		}
 		return st.quote(SelectorText(sel)) + as
 	case "derived":
-		return "(" + st.Query(f["q"].(Node)) + ")" + as
+		return "(" + full.Query(f["q"].(Node)) + ")" + as
 	case "join":
 		kw, _ := f["kw"].(string) // explicit keyword chosen by the case (strategy variants)
 		if kw == "" {
 			kw = joinSQL[f["type"].(string)]
 		}
-		return st.From(f["l"].(Node)) + " " + kw + " " + st.From(f["r"].(Node)) + " ON " + st.Expr(f["on"].(Node))
+		return full.From(f["l"].(Node)) + " " + kw + " " + full.From(f["r"].(Node)) + " ON " + full.Expr(f["on"].(Node))
 	}
 	panic(fmt.Sprintf("cannot render from %#v", f))
 }
@@ -309,6 +320,16 @@ func limitText(q Node) string {
 	lim, off := int(num(q["limit"])), int(num(q["offset"]))
 	if lim < 0 {
 		return ""
+	}
+	if lim >= 2000000000 {
+		// the specification's Huge: the largest LIMIT the parser accepts
+		if off < 0 {
+			return " LIMIT 9223372036854775807"
+		}
+		if s, _ := q["limstyle"].(string); s == "comma" {
+			return fmt.Sprintf(" LIMIT %d, 9223372036854775807", off)
+		}
+		return fmt.Sprintf(" LIMIT 9223372036854775807 OFFSET %d", off)
 	}
 	if off < 0 {
 		return fmt.Sprintf(" LIMIT %d", lim)
